@@ -48,12 +48,23 @@ def info(tier):
     }
 
 
-def cache_infos():
-    from optyx import analysis
-    from optyx.core import autodiff, compiler
+class _NoInfo:
+    hits = misses = currsize = 0
+    maxsize = -1
 
-    return {"compile": compiler._compile_cached.cache_info(), "gradient": autodiff._gradient_cached.cache_info(),
-            "degree": analysis._compute_degree_cached.cache_info()}
+
+def cache_infos():
+    """cache_info() of the three process-wide LRU caches - evidence only: a tree without them (refactored caches) is fine"""
+    out = {}
+    for name, modname, attr in (("compile", "optyx.core.compiler", "_compile_cached"), ("gradient", "optyx.core.autodiff", "_gradient_cached"),
+                                ("degree", "optyx.analysis", "_compute_degree_cached")):
+        try:
+            import importlib
+
+            out[name] = getattr(importlib.import_module(modname), attr).cache_info()
+        except Exception:
+            out[name] = _NoInfo()
+    return out
 
 
 def collide(rng, decls, k, rec, Vnames=None):
@@ -116,6 +127,9 @@ def collide(rng, decls, k, rec, Vnames=None):
                     for vo in VM[:3]:
                         C.compile_gradient(po * vo, VM)(xm)
                         AD.compile_jacobian([po * vo + vo * vo], VM)(xm)
+                    if len(VM) >= 2 and len(VM) <= 6:
+                        AD.compile_hessian(po * VM[0] * VM[1] + VM[0] ** 2, VM)(xm)
+                        AD.compile_hessian(po * VM[-1] * VM[0], VM)(xm)
             if mode == 4:
                 # leaf-only expressions: the name-keyed cache entries
                 C.compile_expression(v0, others if v0 in others else [v0] + others)(np.arange(1.0, 6.0 + len(others))[: len(others) + (0 if v0 in others else 1)])
@@ -206,6 +220,8 @@ def run_expr_pair(rec, rng, twin, k, order, with_params):
             ["bin", "+", ["bin", "*", ["par", "p"], a_], ["fn", "sin", ["bin", "*", ["par", "p"], b_]]],
             ["bin", "+", ["bin", "+", ["bin", "*", ["par", "p"], a_], ["bin", "*", ["pel", "r", 1], b_]], ["bin", "*", ["raw", 0.5, "float"], ["bin", "*", a_, b_]]],
             ["bin", "+", ["bin", "*", ["pel", "r", 0], ["el", ["vec", "x"], 1]], ["bin", "*", ["par", "p"], ["sum", ["vec", "x"]]]],
+            # parameter-scaled bilinear term: the mixed second derivative is the bare parameter
+            ["bin", "+", ["bin", "*", ["bin", "*", ["par", "p"], a_], b_], ["bin", "+", ["bin", "**", a_, ["raw", 2, "int"]], ["bin", "**", b_, ["raw", 2, "int"]]]],
         ])
         case = X.finish_case(rng, X.D0, fam, rng.choice(X.VRELS), "directed-parameters", n_points=1)
     for _ in range(20):
